@@ -458,11 +458,12 @@ func genCase(t *rapid.T) Case {
 
 func TestC04(t *testing.T) {
 	defer rig.StopAll()
-	rec.SetRule("assignments of per-candidate outcomes to up to 3 endpoints: asserted {ok, refuse, connect timeout (a local address whose accept queue is full, so dials time out after proxy.connection_timeout = 0.5 s), reset-before-headers, circuit-open (olla engine, opened through the exported breaker API)} and explored {closed-without-answer, garbage}; all asserted tuples (and all explored tuples up to length 2; length 3 in thorough) x 3 balancers x 2 engines are enumerated, rapid adds request bodies/methods and warm-up histories; the client response, per-backend attempt counts and request fingerprints, repository statuses, five follow-up requests and a health-check readmission are judged. non-trivial = >=2 candidates with the first-tried one failing; distinct by (engine, balancer, outcome tuple, warm-up, method)")
+	rec.SetRule("assignments of per-candidate outcomes to up to 3 endpoints: asserted {ok, refuse, connect timeout (a local address whose accept queue is full, so dials time out after proxy.connection_timeout = 0.5 s), reset-before-headers, circuit-open (olla engine, opened through the exported breaker API)} and explored {closed-without-answer, garbage}; all asserted tuples (and all explored tuples up to length 2; length 3 in thorough) x 3 balancers x 2 engines are enumerated, rapid adds request bodies/methods and warm-up histories; the client response, per-backend attempt counts and request fingerprints, repository statuses, five follow-up requests and a health-check readmission are judged. Sub-check 'fanout': 2..48 simultaneous requests spread round-robin over 1..48 never-seen reachable endpoints (each request is the first its endpoint ever gets): all must be served, each exactly once. non-trivial = >=2 candidates with the first-tried one failing; distinct by (engine, balancer, outcome tuple, warm-up, method)")
 	rec.Assume("for explored outcomes (close without answer, garbage) only at-most-once, no mixing and no 2xx without a working candidate are asserted")
-	if ev.Replay(t, rec, "failover", runCase) {
+	if ev.Replay(t, rec, "failover", runCase) || ev.Replay(t, rec, "fanout", runFan) {
 		return
 	}
 	enumerate()
 	ev.Check(t, rec, "failover", rec.Pick(200, 4000), genCase, runCase)
+	ev.Check(t, rec, "fanout", rec.Pick(40, 600), genFan, runFan)
 }
